@@ -16,9 +16,6 @@ use std::{
 #[cfg(feature = "serde")]
 use either::Either;
 
-#[cfg(feature = "serde")]
-use crate::ThreadExt;
-
 use crate::{
     Error, ModuleCompiler, Result,
     base::{
@@ -1076,20 +1073,16 @@ where
         T: Send + Sync + VmRoot<'vm>,
         'vm: 'async_trait,
     {
-        use crate::vm::{internal::Global, serialization::DeSeed};
-
-        let Global {
-            metadata,
-            typ,
-            value,
-            id: _,
-        } = DeSeed::new(&vm, &mut vm.current_context())
-            .deserialize(self.0)
-            .map_err(|err| err.to_string())?;
-        vm.get_database_mut()
-            .set_global(name, typ, metadata.clone(), &value);
-        info!("Loaded module `{}`", name);
-        Ok(())
+        // `compile_to` serializes a `Module`: it has to be evaluated (`run_expr`) before it can be
+        // stored as a global, and storing a global needs exclusive access to the compiler database,
+        // which the caller's `ModuleCompiler` borrows for as long as this call lasts.
+        // `ThreadExt::load_bytecode` does both steps in the right order.
+        let _ = (self.0, vm);
+        Err(format!(
+            "the precompiled module `{}` must be loaded with `ThreadExt::load_bytecode`",
+            name
+        )
+        .into())
     }
 }
 
